@@ -64,7 +64,7 @@ ASSUMPTIONS = [
     "file-system operations and hash requests are atomic with respect to each other",
     "filesets are File (regular file or symlink chain to one) or Directory with regular files directly inside",
 ]
-RULE = ("generated histories (setup + 3..9 operations from write same/different size, utime set/restore, rename-over, "
+RULE = ("generated histories (setup + 3..9 operations from write same/different size, utime set (past or ~10^9 s in the future)/restore, rename-over, "
         "copy2, hard link, unlink, symlink, mkdir, cache clean-up, hash request in process 0/1 with mode "
         "fresh|object|task) on 3 root names, 2 directories x 2 names; distinct = distinct operation list; "
         "non-trivial = some hash request asks for a target whose content differs from what it was at that target's "
@@ -73,6 +73,8 @@ RULE = ("generated histories (setup + 3..9 operations from write same/different 
 PY = "/venv/bin/python"
 VERIF = coqio.VERIF
 BASE = 1_500_000_000_000_000_000      # real ns value of logical mtime 0 for explicit utime values (< NOW0)
+FUT = 3_000_000_000_000_000_000       # real ns value (year 2065, ~10^9 s ahead) of logical mtime FUT0: pinned far in the future
+FUT0 = 200                            # logical future mtimes are FUT0 .. FUT0+19: later than every kernel stamp NOW0+k
 NOW0 = 20                             # logical value of the kernel stamp of operation 0 (small: nat literals are unary)
 TOPS = [0, 1, 2]
 DIRS = [0, 1]
@@ -288,6 +290,8 @@ class Exec:
             return self.real2log[v]
         if BASE <= v < BASE + NOW0:
             return v - BASE
+        if FUT <= v < FUT + NOW0:
+            return FUT0 + v - FUT
         if v <= self.kmax:
             self.os_violations.append({"op": self.k, "value": v, "kmax": self.kmax})
         newvals.append(v)
@@ -401,7 +405,7 @@ class Exec:
                     f.write(op[2].encode())
             elif kind in ("utime", "utime_restore"):
                 if kind == "utime":
-                    real = BASE + op[2]
+                    real = FUT + op[2] - FUT0 if op[2] >= FUT0 else BASE + op[2]
                 else:
                     real = self.hashed_mtime.get(os.path.realpath(self.rp(op[1])), BASE + 5)
                 m = self.logical(real, [])
@@ -546,7 +550,7 @@ def gen_history(rng):
         focus, members, other = ["dir", 0], [s00, s01], t1
     else:
         focus, members, other = ["file", s00], [s00], s01
-    mt = rng.choice([5, 6])
+    mt = rng.choice([5, 6, 5, FUT0, FUT0 + 1])      # a third of the histories pin mtimes far in the future
     for p in ([members[0]] if focus_kind == "link" else members) + [other]:
         ops.append(["write", list(p), rng.choice(size4)])
         if rng.random() < 0.7:
@@ -577,7 +581,7 @@ def gen_history(rng):
             if rng.random() < 0.6:
                 ops.append(["utime_restore", p] if rng.random() < 0.75 else ["utime", p, mt])
         elif r < 0.56:
-            ops.append(["utime_restore", m] if rng.random() < 0.5 else ["utime", any_path(), rng.choice([5, 6, 7])])
+            ops.append(["utime_restore", m] if rng.random() < 0.5 else ["utime", any_path(), rng.choice([5, 6, 7, mt, FUT0, FUT0 + 1])])
         elif r < 0.66:
             ops.append(["rename", list(other), m] if rng.random() < 0.6 else ["rename", any_path(), any_path()])
         elif r < 0.75:
